@@ -301,6 +301,9 @@ func verifLemmaProgress(g *Graph, t *Task) {}
 //@     (forall k string :: has(g.Tasks, k) ==> fresh(g.Tasks[k]) && allocated(g.Tasks[k])) &&
 //@     (forall k string :: has(g.Meta, k) ==> g.Meta[k] == nil || (fresh(g.Meta[k]) && allocated(g.Meta[k]))) &&
 //@     (forall f string :: has(g.Deps, f) ==> fresh(g.Deps[f]) && allocated(g.Deps[f]))
+//@ spec freshMaps(g *Graph) bool =
+//@     fresh(g) && fresh(g.Tasks) && fresh(g.Deps) && fresh(g.Tombstones) &&
+//@     (forall f string :: has(g.Deps, f) ==> g.Deps[f] != nil && fresh(g.Deps[f]))
 //@ spec replayInv(g *Graph) bool = wfMaps(g) && wfDeps(g) && wfTasks(g) && freshGraph(g) && tombExcluded(g)
 //@ spec rdepsWf(g *Graph) bool =
 //@     (forall t string :: has(g.RDeps, t) ==> g.RDeps[t] != nil && fresh(g.RDeps[t]) && allocated(g.RDeps[t])) &&
@@ -320,6 +323,7 @@ func verifLemmaProgress(g *Graph, t *Task) {}
 //@   ensures [nil-on-error] err != nil ==> ret0 == nil
 //@   ensures [wf] err == nil ==> wfMaps(ret0) && wfDeps(ret0) && wfTasks(ret0)
 //@   ensures [tomb-excluded] err == nil ==> tombExcluded(ret0)
+//@   ensures [fresh] err == nil ==> freshGraph(ret0)
 //@   modifies nothing
 //@ loop 0 range events
 //@   invariant [wf] wfMaps(graph) && wfDeps(graph) && wfTasks(graph)
@@ -735,6 +739,11 @@ func verifLemmaProgress(g *Graph, t *Task) {}
 //@ func appendEventsAtomically
 //@   requires [ex] lk == 2
 //@   requires [same-epoch] readEpoch == epoch
+//@   ensures [merged] ret == nil && len(appended) > 0 ==> len(ghost_appended) == len(existing) + len(appended) &&
+//@        (forall i int :: 0 <= i && i < len(existing) ==> ghost_appended[i] == existing[i]) &&
+//@        (forall i int :: 0 <= i && i < len(appended) ==> ghost_appended[len(existing) + i] == appended[i])
+//@   ensures [committed] ret == nil && len(appended) > 0 ==> commits == old(commits) + 1 && logv == old(logv) + 1
+//@   ensures [empty-noop] len(appended) == 0 ==> ret == nil && commits == old(commits) && logv == old(logv)
 //@   ensures [fail] ret != nil ==> logv == old(logv) && commits == old(commits)
 //@   ensures [one-commit] commits <= old(commits) + 1
 //@   modifies ghost logv, ghost commits, ghost appended
@@ -844,6 +853,11 @@ func verifLemmaProgress(g *Graph, t *Task) {}
 //@   ensures [state] has(ret, "state") <==> t.State != nil
 //@   ensures [claim] has(ret, "claim") <==> t.Claim != nil
 //@   ensures [result] has(ret, "result.path") <==> t.ResultPath != nil
+//@   ensures [result-summary] has(ret, "result.summary") <==> t.ResultSummary != nil
+//@   ensures [keys] forall k string :: has(ret, k) ==>
+//@        k == "title" || k == "body" || k == "epic" || k == "state" || k == "claim" || k == "result.path" || k == "result.summary"
+//@   ensures [values] (t.Title != nil ==> has(ret, "title") && ret["title"] == deref(t.Title)) && (t.Body != nil ==> has(ret, "body") && ret["body"] == deref(t.Body)) &&
+//@        (t.State != nil ==> ret["state"] == deref(t.State)) && (t.Claim != nil ==> ret["claim"] == deref(t.Claim)) && (t.Epic != nil ==> has(ret, "epic") && ret["epic"] == deref(t.Epic))
 //@   modifies nothing
 //@ func buildUpdatedFields
 //@   ensures [true] true
@@ -1101,4 +1115,182 @@ func verifLemmaProgress(g *Graph, t *Task) {}
 //@   ensures [title-trimmed] has(ret, "title") ==> ret["title"] == trimSpace(opts.TitleFlag)
 //@   ensures [no-body] !has(ret, "body")
 //@   ensures [fresh] ret != nil && fresh(ret)
+//@   ensures [keys] forall k string :: has(ret, k) ==>
+//@        k == "title" || k == "epic" || k == "state" || k == "claim" || k == "result.path" || k == "result.summary"
+//@   ensures [flags] (has(ret, "state") <==> opts.StateFlag != "") && (has(ret, "claim") <==> opts.ClaimFlag != "") &&
+//@        (has(ret, "epic") <==> opts.EpicFlag != "") && (has(ret, "result.path") <==> opts.ResultPathFlag != "") &&
+//@        (has(ret, "result.summary") <==> opts.ResultSummaryFlag != "")
+//@   ensures [values] (has(ret, "state") ==> ret["state"] == opts.StateFlag) && (has(ret, "claim") ==> ret["claim"] == opts.ClaimFlag) &&
+//@        (has(ret, "epic") ==> ret["epic"] == opts.EpicFlag) && (has(ret, "result.path") ==> ret["result.path"] == opts.ResultPathFlag) &&
+//@        (has(ret, "result.summary") ==> ret["result.summary"] == opts.ResultSummaryFlag)
 //@   modifies nothing
+
+// ---- plan (C11) ----
+//@ func hasPlanCycle
+//@   trusted title-level DFS used for the validation error text only; rejection of cyclic plans before any write is proved through the id-level hasCycle guard inside the section
+//@   ensures [true] true
+//@   modifies nothing
+//@ spec blankPtr(t *string) bool = t == nil || trimSpace(deref(t)) == ""
+//@ spec planIndexMap(p *PlanInput, m map[string]int, n int) bool =
+//@     (forall t string :: has(m, t) ==> 0 <= m[t] && m[t] < n && p.Tasks[m[t]].Title != nil && deref(p.Tasks[m[t]].Title) == t)
+//@ spec planRecorded(p *PlanInput, m map[string]int, n int, bad bool) bool =
+//@     (forall k int :: 0 <= k && k < n ==> bad ||
+//@         (!blankPtr(p.Tasks[k].Title) && has(m, deref(p.Tasks[k].Title)) && m[deref(p.Tasks[k].Title)] == k &&
+//@          (p.Tasks[k].Body == nil || trimSpace(deref(p.Tasks[k].Body)) != "")))
+//@ spec planAfterOK(p *PlanInput, m map[string]int, i int, j int) bool =
+//@     has(m, p.Tasks[i].After[j]) && p.Tasks[i].After[j] != deref(p.Tasks[i].Title)
+//@ func (*PlanInput).Validate
+//@   option heap-closed
+//@   requires [recv] p != nil
+//@   ensures [titles] ret == nil ==> p.Title != nil && len(p.Tasks) > 0 &&
+//@        (forall i int :: 0 <= i && i < len(p.Tasks) ==> p.Tasks[i].Title != nil)
+//@   ensures [non-blank] ret == nil ==> !blankPtr(p.Title) && (p.Body == nil || trimSpace(deref(p.Body)) != "") &&
+//@        (forall i int :: 0 <= i && i < len(p.Tasks) ==> !blankPtr(p.Tasks[i].Title) &&
+//@            (p.Tasks[i].Body == nil || trimSpace(deref(p.Tasks[i].Body)) != ""))
+//@   ensures [distinct] ret == nil ==> (forall i int, j int :: 0 <= i && i < j && j < len(p.Tasks) ==>
+//@        deref(p.Tasks[i].Title) != deref(p.Tasks[j].Title))
+//@   ensures [after-known] ret == nil ==> (forall i int, j int :: 0 <= i && i < len(p.Tasks) && 0 <= j && j < len(p.Tasks[i].After) ==>
+//@        (exists m int :: 0 <= m && m < len(p.Tasks) && p.Tasks[m].Title != nil && deref(p.Tasks[m].Title) == p.Tasks[i].After[j]))
+//@   ensures [after-not-self] ret == nil ==> (forall i int, j int :: 0 <= i && i < len(p.Tasks) && 0 <= j && j < len(p.Tasks[i].After) ==>
+//@        p.Tasks[i].After[j] != deref(p.Tasks[i].Title))
+//@   canary  [accepts] ret != nil
+//@   canary  [rejects] ret == nil
+//@   modifies nothing
+//@ loop 0 range p.Tasks
+//@   invariant [missing-grows] len(missing) >= atentry(len(missing)) && (missing == nil || fresh(missing))
+//@   invariant [top] (blankPtr(p.Title) ==> len(missing) > 0) && (len(p.Tasks) == 0 ==> len(missing) > 0) && index <= len(p.Tasks) &&
+//@        (p.Body != nil && trimSpace(deref(p.Body)) == "" ==> len(invalid) > 0) && invalid != nil && fresh(invalid) && titleToIndex != nil && fresh(titleToIndex)
+//@   invariant [index-map] planIndexMap(p, titleToIndex, index)
+//@   invariant [recorded] planRecorded(p, titleToIndex, index, len(missing) > 0 || len(invalid) > 0)
+//@ loop 1 range p.Tasks
+//@   invariant [kept] len(missing) == atentry(len(missing)) && invalid != nil && fresh(invalid) && index <= len(p.Tasks)
+//@   invariant [invalid-grows] atentry(len(invalid)) > 0 ==> len(invalid) > 0
+//@   invariant [deps-fresh] forall k string :: has(depsByTitle, k) ==> (depsByTitle[k] == nil || fresh(depsByTitle[k]))
+//@   invariant [after-checked] forall a int, b int :: 0 <= a && a < index && 0 <= b && b < len(p.Tasks[a].After) ==>
+//@        len(invalid) > 0 || blankPtr(p.Tasks[a].Title) || planAfterOK(p, titleToIndex, a, b)
+//@ loop 2 range task.After
+//@   invariant [kept] len(missing) == atentry(len(missing)) && invalid != nil && fresh(invalid) && index <= len(task.After)
+//@   invariant [invalid-grows] atentry(len(invalid)) > 0 ==> len(invalid) > 0
+//@   invariant [deps-fresh] forall k string :: has(depsByTitle, k) ==> (depsByTitle[k] == nil || fresh(depsByTitle[k]))
+//@   invariant [after-checked] forall b int :: 0 <= b && b < index ==> len(invalid) > 0 || planAfterOK(p, titleToIndex, i, b)
+//@   invariant [cur] 0 <= i && i < len(p.Tasks) && task == p.Tasks[i] && task.Title != nil && taskTitle == deref(task.Title)
+
+//@ spec planTaskEvent(e Event, in PlanTaskInput, id string, epic string) bool =
+//@     e.Type == "new_task" && decOK_NewTaskEvent(content(e.Data)) && allocated(e.Data) &&
+//@     dec_NewTaskEvent(content(e.Data)).ID == id && dec_NewTaskEvent(content(e.Data)).EpicID == epic &&
+//@     dec_NewTaskEvent(content(e.Data)).State == "todo" &&
+//@     dec_NewTaskEvent(content(e.Data)).Title == deref(in.Title) &&
+//@     dec_NewTaskEvent(content(e.Data)).Body == ite(in.Body != nil, deref(in.Body), "")
+//@ spec planEpicEvent(e Event, p *PlanInput, id string) bool =
+//@     e.Type == "new_epic" && decOK_NewTaskEvent(content(e.Data)) && allocated(e.Data) &&
+//@     dec_NewTaskEvent(content(e.Data)).ID == id && dec_NewTaskEvent(content(e.Data)).EpicID == "" &&
+//@     dec_NewTaskEvent(content(e.Data)).State == "todo" &&
+//@     dec_NewTaskEvent(content(e.Data)).Title == deref(p.Title) &&
+//@     dec_NewTaskEvent(content(e.Data)).Body == ite(p.Body != nil, deref(p.Body), "")
+
+//@ spec planLinkEvent(e Event, f string, t string) bool =
+//@     e.Type == "link" && decOK_LinkEvent(content(e.Data)) && allocated(e.Data) &&
+//@     dec_LinkEvent(content(e.Data)).FromID == f && dec_LinkEvent(content(e.Data)).ToID == t &&
+//@     dec_LinkEvent(content(e.Data)).Type == "depends"
+//@ spec planValidated(input *PlanInput) bool =
+//@     input != nil && input.Title != nil && len(input.Tasks) > 0 &&
+//@     (forall i int :: 0 <= i && i < len(input.Tasks) ==> input.Tasks[i].Title != nil) &&
+//@     (forall i int, j int :: 0 <= i && i < j && j < len(input.Tasks) ==> deref(input.Tasks[i].Title) != deref(input.Tasks[j].Title))
+//@ spec planIDs(input *PlanInput, m map[string]string, ts []planTaskOutput, n int) bool =
+//@     forall i int :: 0 <= i && i < n ==> has(m, deref(input.Tasks[i].Title)) && m[deref(input.Tasks[i].Title)] == ts[i].ID
+//@ spec planLookup(m map[string]string, k string) string = ite(has(m, k), m[k], "")
+//@ spec planEdgeNamed(input *PlanInput, m map[string]string, f string, t string) bool =
+//@     exists i int, j int :: 0 <= i && i < len(input.Tasks) && 0 <= j && j < len(input.Tasks[i].After) &&
+//@         f == planLookup(m, deref(input.Tasks[i].Title)) && t == planLookup(m, input.Tasks[i].After[j])
+//@ spec planEdges(input *PlanInput, m map[string]string, evs []Event, es []sequenceEdgeOutput) bool =
+//@     len(evs) == 1 + len(input.Tasks) + len(es) &&
+//@     (forall k int :: 0 <= k && k < len(es) ==> planLinkEvent(evs[1 + len(input.Tasks) + k], es[k].FromID, es[k].ToID) &&
+//@         es[k].Type == "depends" && planEdgeNamed(input, m, es[k].FromID, es[k].ToID))
+//@ func RunPlan$1
+//@   option heap-closed
+//@   requires [ex] lk == 2
+//@   requires [validated] input != nil && input.Title != nil && len(input.Tasks) > 0 &&
+//@        (forall i int :: 0 <= i && i < len(input.Tasks) ==> input.Tasks[i].Title != nil)
+//@   requires [distinct-titles] forall i int, j int :: 0 <= i && i < j && j < len(input.Tasks) ==> deref(input.Tasks[i].Title) != deref(input.Tasks[j].Title)
+//@   ensures [fail-unchanged] ret != nil ==> logv == old(logv) && commits == old(commits)
+//@   ensures [one-commit] commits <= old(commits) + 1
+//@   ensures [committed] ret == nil ==> commits == old(commits) + 1 && logv == old(logv) + 1
+//@   ensures [task-count] ret == nil ==> len(out.Tasks) == len(input.Tasks) && len(newEvents) == 1 + len(input.Tasks) + len(out.Edges)
+//@   ensures [epic-event] ret == nil ==> planEpicEvent(newEvents[0], input, out.Epic.ID) && out.Epic.Title == deref(input.Title)
+//@   ensures [task-events] ret == nil ==> (forall i int :: 0 <= i && i < len(input.Tasks) ==>
+//@        planTaskEvent(newEvents[1 + i], input.Tasks[i], out.Tasks[i].ID, out.Epic.ID) && out.Tasks[i].Title == deref(input.Tasks[i].Title))
+//@   ensures [edges] ret == nil ==> planEdges(input, titleToID, newEvents, out.Edges)
+//@   ensures [ids] ret == nil ==> planIDs(input, titleToID, out.Tasks, len(input.Tasks))
+//@   ensures [fresh-ids] ret == nil ==> !has(graph.Tombstones, out.Epic.ID) &&
+//@        (forall i int :: 0 <= i && i < len(out.Tasks) ==> !has(graph.Tombstones, out.Tasks[i].ID))
+//@   ensures [distinct-ids] ret == nil ==> (forall i int :: 0 <= i && i < len(out.Tasks) ==> out.Tasks[i].ID != out.Epic.ID) &&
+//@        (forall i int, j int :: 0 <= i && i < j && j < len(out.Tasks) ==> out.Tasks[i].ID != out.Tasks[j].ID)
+//@   ensures [appends-exactly:merged] ret == nil ==> len(appended) == len(events) + len(newEvents) &&
+//@        (forall i int :: 0 <= i && i < len(events) ==> appended[i] == events[i]) &&
+//@        (forall i int :: 0 <= i && i < len(newEvents) ==> appended[len(events) + i] == newEvents[i])
+//@   canary  [succeeds] ret != nil
+//@   canary  [fails] ret == nil
+//@   canary  [edge-written] !(ret == nil && len(out.Edges) == 2)
+//@   modifies cell out, ghost logv, ghost commits, ghost appended, ghost readEpoch
+//@ loop 0 range graph.Tasks
+//@   invariant [wf] wfMaps(graph) && freshMaps(graph) && workingIDs != nil && fresh(workingIDs)
+//@   invariant [copied] forall k string :: visited(k) ==> has(workingIDs, k)
+//@ loop 1 range input.Tasks
+//@   invariant [wf] wfMaps(graph) && freshMaps(graph) && workingIDs != nil && fresh(workingIDs) && titleToID != nil && fresh(titleToID) && index <= len(input.Tasks)
+//@   invariant [shape] len(newEvents) == 1 + index && len(out.Tasks) == index && fresh(newEvents) && (out.Tasks == nil || fresh(out.Tasks)) && len(out.Edges) == 0 && (out.Edges == nil || fresh(out.Edges))
+//@   invariant [epic-event] planEpicEvent(newEvents[0], input, out.Epic.ID) && out.Epic.Title == deref(input.Title) && out.Epic.ID == epicID
+//@   invariant [task-events] forall i int :: 0 <= i && i < index ==>
+//@        planTaskEvent(newEvents[1 + i], input.Tasks[i], out.Tasks[i].ID, epicID) && out.Tasks[i].Title == deref(input.Tasks[i].Title)
+//@   invariant [fresh-ids] !has(graph.Tombstones, epicID) && (forall i int :: 0 <= i && i < index ==> !has(graph.Tombstones, out.Tasks[i].ID))
+//@   invariant [ids-build:distinct-titles] planIDs(input, titleToID, out.Tasks, index)
+//@   invariant [working] has(workingIDs, epicID) && (forall i int :: 0 <= i && i < index ==> has(workingIDs, out.Tasks[i].ID)) &&
+//@        (forall k string :: atentry(has(graph.Tasks, k)) ==> has(workingIDs, k))
+//@   invariant [new-ids-new] forall k string, i int :: atentry(has(graph.Tasks, k)) ==> k != epicID && (0 <= i && i < index ==> k != out.Tasks[i].ID)
+//@   invariant [distinct-ids] (forall i int :: 0 <= i && i < index ==> out.Tasks[i].ID != epicID) &&
+//@        (forall i int, j int :: 0 <= i && i < j && j < index ==> out.Tasks[i].ID != out.Tasks[j].ID)
+//@   invariant [log-unchanged] logv == old(logv) && commits == old(commits) && lk == 2 && readEpoch == epoch
+//@ loop 2 range input.Tasks
+//@   invariant [shape] len(newEvents) >= 1 + len(input.Tasks) && fresh(newEvents) && len(out.Tasks) == len(input.Tasks) && (out.Tasks == nil || fresh(out.Tasks))
+//@   invariant [epic-event] planEpicEvent(newEvents[0], input, out.Epic.ID) && out.Epic.Title == deref(input.Title) && out.Epic.ID == epicID
+//@   invariant [task-events] forall i int :: 0 <= i && i < len(input.Tasks) ==>
+//@        planTaskEvent(newEvents[1 + i], input.Tasks[i], out.Tasks[i].ID, epicID) && out.Tasks[i].Title == deref(input.Tasks[i].Title)
+//@   invariant [fresh-ids] !has(graph.Tombstones, epicID) && (forall i int :: 0 <= i && i < len(input.Tasks) ==> !has(graph.Tombstones, out.Tasks[i].ID))
+//@   invariant [distinct-ids] (forall i int :: 0 <= i && i < len(input.Tasks) ==> out.Tasks[i].ID != epicID) &&
+//@        (forall i int, j int :: 0 <= i && i < j && j < len(input.Tasks) ==> out.Tasks[i].ID != out.Tasks[j].ID)
+//@   invariant [ids:ids-build] planIDs(input, titleToID, out.Tasks, len(input.Tasks))
+//@   invariant [edges] planEdges(input, titleToID, newEvents, out.Edges)
+//@   invariant [log-unchanged] logv == old(logv) && commits == old(commits) && lk == 2 && readEpoch == epoch
+//@   invariant [wf] wfMaps(graph) && freshMaps(graph) && titleToID != nil && seenEdges != nil && fresh(seenEdges) && (out.Edges == nil || fresh(out.Edges))
+//@ loop 3 range taskInput.After
+//@   invariant [shape] len(newEvents) >= 1 + len(input.Tasks) && fresh(newEvents) && len(out.Tasks) == len(input.Tasks) && (out.Tasks == nil || fresh(out.Tasks))
+//@   invariant [epic-event] planEpicEvent(newEvents[0], input, out.Epic.ID) && out.Epic.Title == deref(input.Title) && out.Epic.ID == epicID
+//@   invariant [task-events] forall i int :: 0 <= i && i < len(input.Tasks) ==>
+//@        planTaskEvent(newEvents[1 + i], input.Tasks[i], out.Tasks[i].ID, epicID) && out.Tasks[i].Title == deref(input.Tasks[i].Title)
+//@   invariant [fresh-ids] !has(graph.Tombstones, epicID) && (forall i int :: 0 <= i && i < len(input.Tasks) ==> !has(graph.Tombstones, out.Tasks[i].ID))
+//@   invariant [distinct-ids] (forall i int :: 0 <= i && i < len(input.Tasks) ==> out.Tasks[i].ID != epicID) &&
+//@        (forall i int, j int :: 0 <= i && i < j && j < len(input.Tasks) ==> out.Tasks[i].ID != out.Tasks[j].ID)
+//@   invariant [ids] planIDs(input, titleToID, out.Tasks, len(input.Tasks))
+//@   invariant [edges:cur,ids] planEdges(input, titleToID, newEvents, out.Edges)
+//@   invariant [cur:ids] 0 <= outerindex && outerindex < len(input.Tasks) && taskInput == input.Tasks[outerindex] && fromID == planLookup(titleToID, deref(taskInput.Title))
+//@   invariant [log-unchanged] logv == old(logv) && commits == old(commits) && lk == 2 && readEpoch == epoch
+//@   invariant [wf] wfMaps(graph) && freshMaps(graph) && titleToID != nil && seenEdges != nil && fresh(seenEdges) && (out.Edges == nil || fresh(out.Edges))
+
+//@ func ParsePlanInput
+//@   trusted strict JSON decoding of stdin (encoding/json, DisallowUnknownFields, single value); rejects unknown keys and trailing values
+//@   ensures [one-of] (ret0 == nil) != (ret1 == nil)
+//@   ensures [fresh] ret0 != nil ==> fresh(ret0)
+//@   modifies nothing
+//@ func RunPlan
+//@   option heap-closed
+//@   requires [unlocked] lk == 0
+//@   ensures [released] lk == 0
+//@   ensures [never-blocks] blocking == old(blocking)
+//@   ensures [fail-unchanged] ret != nil ==> logv == old(logv) && commits == old(commits)
+//@   ensures [one-commit] commits <= old(commits) + 1
+//@   ensures [committed] ret == nil ==> commits == old(commits) + 1 && logv == old(logv) + 1
+//@   ensures [json-one-value] opts.JSON && ret == nil ==> stdoutJSON == old(stdoutJSON) + 1 && stdoutText == old(stdoutText)
+//@   ensures [json-error-at-most-one] opts.JSON && ret != nil ==> stdoutJSON <= old(stdoutJSON) + 1 && stdoutText == old(stdoutText)
+//@   canary  [succeeds] ret != nil
+//@   canary  [fails] ret == nil
+//@   modifies ghost lk, ghost epoch, ghost blocking, ghost fsWrites, ghost fsExists, ghost logv, ghost commits, ghost appended, ghost readEpoch
+//@   modifies ghost stdoutJSON, ghost stdoutText, ghost stderrText
